@@ -492,8 +492,9 @@ class RealizeMemrefCasts(RewritePattern):
         assert isa(dest_type, builtin.MemRefType[Attribute])
 
         if source_type == dest_type:
-            # canonicalize away unnecessary cast
-            op.dest.replace_all_uses_with(op.source)
+            # canonicalize away unnecessary cast; if the direct source is an intermediate of
+            # another type, the chain ends where it started: use its root
+            op.dest.replace_all_uses_with(op.source if op.source.type == dest_type else source_op.source)
             rewriter.erase_op(op)
             return
 
